@@ -23,7 +23,7 @@ replayable and matchable.  Per block at most one failure per (function, situatio
 is reported (the sweep itself is never cut short), and blocks are dealt over many work items."""
 import itertools
 
-from ..core import WholeFloats, Sub, fail, lit
+from ..core import Siblings, WholeFloats, Sub, fail, lit
 
 # --------------------------------------------------------------------------
 # the string spaces
@@ -917,4 +917,21 @@ class TextWholeFloats(WholeFloats):
     ]
 
 
-SUBS = [Slices(), SliceLaws(), LenConcat(), CaseTrimClean(), CodeChar(), Join(), Substitute(), TextWholeFloats()]
+NEEDS_ZYGOTE = True
+
+
+class TextSiblings(Siblings):
+    name = 'c15.siblings'
+    GROUPS = [
+        (['LEFT({0},{1})', 'RIGHT({0},{1})', 'MID({0},1,{1})', 'MID({0},{1},{1})', 'MID({0},{1},1)', 'LEFT({0})', 'RIGHT({0})',
+          'UPPER({0})', 'LOWER({0})', 'PROPER({0})', 'TRIM({0})', 'CLEAN({0})', 'LEN({0})', 'CODE({0})',
+          'CONCATENATE({0},{1})', 'TEXTJOIN({0},TRUE,{1},{0})', 'TEXTJOIN({0},FALSE,{1},{0})', 'SUBSTITUTE({0},"a",{1})',
+          'SUBSTITUTE({0},"a","x",{1})', 'LEFT({0},{1})&RIGHT({0},LEN({0})-{1})'],
+         [('abcab', 2), (' a  b ', 3), ('Ab', 0), ('abcab', 1), ('aaaa', 2), ('', 1), ('ab', 5), ('hello world', 5)]),
+        (['CHAR({0})', 'CODE(CHAR({0}))', 'LEFT("abcdef",{0})', 'RIGHT("abcdef",{0})', 'MID("abcdef",{0},2)',
+          'MID("abcdef",2,{0})', 'SUBSTITUTE("abcabc","b","-",{0})', 'LEN(CHAR({0}))'],
+         [(65,), (97,), (200,), (1,), (2,), (3,), (32,), (255,)]),
+    ]
+
+
+SUBS = [Slices(), SliceLaws(), LenConcat(), CaseTrimClean(), CodeChar(), Join(), Substitute(), TextWholeFloats(), TextSiblings()]
